@@ -32,7 +32,7 @@ Inductive case :=
 | CaseM (remaining : rl) (caps : list rl) (out : rl)                  (* subtractMax *)
 | CaseE (limits : option rl) (usage : rl) (exceeded : bool)           (* Limits.ExceededBy *)
 | CaseSub (lhs rhs out : rl)                                          (* resources.Subtract *)
-| CaseP (exact : bool) (limits : rl) (existing : list rl) (claims : list (list itype))
+| CaseP (exact : bool) (limits : rl) (existing : list (nstate * rl)) (claims : list (list itype))
         (final_remaining : rl) (launched : list rl)                   (* Scheduler.Solve, one pool *)
 | CaseS (limit : Z) (hops : list hop) (sobs : list sobs).             (* static provisioning controller *)
 
@@ -148,8 +148,11 @@ Fixpoint bools_eqb (a b : list bool) : bool :=
 (* pointwise a <= b on the keys of a *)
 Definition rl_le (a b : rl) : bool := forallb (fun kv => snd kv <=? get (fst kv) b) a.
 
-Definition checkP (exact : bool) (limits : rl) (existing : list rl) (claims : list (list itype))
+(* [nodes]: every node / NodeClaim of the pool found in the API with its lifecycle state; the usage the
+   oracle recomputes is the capacity of those that are not being deleted *)
+Definition checkP (exact : bool) (limits : rl) (nodes : list (nstate * rl)) (claims : list (list itype))
                   (final : rl) (launched : list rl) : list string :=
+  let existing := active_caps nodes in
   (match run_pass (remaining0 limits existing) claims with
    | None => ["corr:pass-not-admissible"]
    | Some r => if (if exact then rl_eqb r final else rl_le final r && Nat.eqb (List.length r) (List.length final))
